@@ -317,6 +317,14 @@ Definition kv_hasht : hasht Z :=
   Hasht (fun c => [TCall 1 [c / 256]; TCall 1 [c mod 256]])
         (provided_hash_slice (fun c => [TCall 1 [c / 256]; TCall 1 [c mod 256]])).
 
+(* To(i32): == and Ord::cmp by value (total); partial_cmp treats the value 77 like a NaN (unordered with everything,
+   itself included); #[derive(Hash)]: write_i32 per element, hash_slice is the provided loop *)
+Definition to_eq (x y : Z) : bool := x =? y.
+Definition to_pcmp (x y : Z) : option comparison := if (x =? 77) || (y =? 77) then None else Some (x ?= y).
+Definition to_cmp (x y : Z) : comparison := x ?= y.
+Definition to_hasht : hasht Z :=
+  Hasht (fun x => [TCall 9 (le_bytes 4 x)]) (provided_hash_slice (fun x => [TCall 9 (le_bytes 4 x)])).
+
 (* Wb(u8): one byte with a hand-written Hash: write_u8(x); write_u8(0xAA); hash_slice is the provided loop *)
 Definition wb_hasht : hasht Z :=
   Hasht (fun x => [TCall 1 [x]; TCall 1 [170]]) (provided_hash_slice (fun x => [TCall 1 [x]; TCall 1 [170]])).
